@@ -140,8 +140,19 @@ func (p *Parser) parseString(data string) error {
 			linebuffer.Reset()
 		}
 	}
+	// A line the scanner cannot deliver (longer than its buffer) ends the loop early: report it
+	// instead of silently ignoring the rest of the configuration.
+	if err := scanner.Err(); err != nil {
+		return fmt.Errorf("reading configuration at line %d: %w", p.currentLine+1, err)
+	}
 	if inBackticks {
 		return errors.New("backticks left open")
+	}
+	// A trailing line continuation at the end of the input leaves a directive pending: evaluate it.
+	if linebuffer.Len() > 0 {
+		pending := linebuffer.String()
+		linebuffer.Reset()
+		return p.evaluateLine(pending)
 	}
 	return nil
 }
